@@ -7,7 +7,7 @@ import builtins as py_builtins
 
 import z3
 
-from pyvc.effect import EffectInterp, Opaque, EStr, ObjS, WorldS, OpaqueExc
+from pyvc.effect import EffectInterp, Opaque, OpaqueStmt, EStr, ObjS, WorldS, OpaqueExc
 from pyvc.interp import Raised, exc, EXC, TYPES, Coro
 from pyvc.loader import Module
 from pyvc.stmts import PyModule
@@ -26,6 +26,13 @@ class Children(ast.NodeTransformer):
         if node.id.startswith("_c") and node.id[2:].isdigit():
             return ast.copy_location(Opaque(int(node.id[2:]), node.lineno, node.col_offset), node)
         return node
+
+
+    def visit_Expr(self, node):
+        v = node.value
+        if isinstance(v, ast.Name) and v.id.startswith("_s") and v.id[2:].isdigit():
+            return ast.copy_location(OpaqueStmt(int(v.id[2:]), node.lineno, node.col_offset), node)
+        return self.generic_visit(node)
 
 
 def template(src, mode="exec"):
@@ -72,6 +79,7 @@ class EvalHarness:
     def __init__(self, eng):
         it = EffectInterp(eng)
         it.internal_classes = set(INTERNAL)
+        it.opaque_values_are_not_tuples = True  # a tuple of handler classes is written as a Tuple node (own template)
         it.assume_callees_callable = True  # calling a non-callable raises TypeError on both sides; only the message differs
         self.it = it
         self.eng = eng
@@ -90,7 +98,7 @@ class EvalHarness:
             "time": PyModule("time", {"sleep": self.sleep_sentinel}),
             "builtins": Rec(fields={}, name="builtins"), "Function": Rec(fields={"get": lambda i, n: None}, name="Function"),
             "State": Rec(name="State"), "logging": PyModule("logging", {"getLogger": lambda i, n: logger_stub(), "DEBUG": 10}),
-            "sys": PyModule("sys", {"modules": {}}),
+            "sys": PyModule("sys", {"modules": {}, "exc_info": lambda i: self.exc_info()}),
             "operator": PyModule("operator", {f"i{n}": (lambda opcls: (lambda i, a, b: i.aug(opcls(), a, b)))(c) for n, c in {
                 "add": ast.Add, "sub": ast.Sub, "mul": ast.Mult, "matmul": ast.MatMult, "truediv": ast.Div, "mod": ast.Mod,
                 "pow": ast.Pow, "lshift": ast.LShift, "rshift": ast.RShift, "or": ast.BitOr, "xor": ast.BitXor,
@@ -105,6 +113,7 @@ class EvalHarness:
             "name": "file.x", "sym_table": self.vars, "global_sym_table": self.vars, "local_sym_table": {},
             "sym_table_stack": [], "curr_func": None, "user_locals": {}, "filename": "file.x", "global_ctx": Rec(name="gctx"),
             "ast_opaque": lambda i, node: Coro(lambda: i.Ev(node), "Ev"),
+            "ast_opaquestmt": lambda i, node: Coro(lambda: self.stmt_completion(node), "ExS"),
         }, name="AstEval")
         # `func == time.sleep` in call_func: the callee is a plain callable whose == is identity (assumption)
         orig_cmp = it.cmp
@@ -116,6 +125,57 @@ class EvalHarness:
                 return isinstance(op, ast.NotEq)
             return orig_cmp(op, a, b)
         it.cmp = cmp
+
+    def exc_info(self):
+        """sys.exc_info() inside a handler: (type, value, traceback) of the exception being handled."""
+        it = self.it
+        if not it.cur_exc:
+            return (None, None, None)
+        e = it.cur_exc[-1]
+        ev = it.exc_term(e)
+        return (SV(it.exc_type_term(e)), SV(ev), SV(z3.Function("traceback_of", ObjS, ObjS)(ev)))
+
+    def stmt_completion(self, node):
+        """What evaluating an opaque child statement returns inside the interpreter: None or a stop-flow object."""
+        it = self.it
+        kind, v = it.ExS(node)
+        V = self.mod.env.vars
+        if kind == "normal":
+            return None
+        if kind == "break":
+            return Rec(cls=V["EvalBreak"], name="EvalBreak")
+        if kind == "continue":
+            return Rec(cls=V["EvalContinue"], name="EvalContinue")
+        return Rec(cls=V["EvalReturn"], fields={"value": v}, name="EvalReturn")
+
+    def impl_completion(self, node):
+        """Run the real handler on a statement template; outcome value is a completion (kind, value)."""
+        it = self.it
+        V = self.mod.env.vars
+
+        def thunk():
+            r = it.await_(it.call(it.getattr_(self.ctx, "aeval"), [node], {}))
+            if r is None:
+                return ("normal", None)
+            if isinstance(r, Rec) and r._cls is not None:
+                names = r._cls.mro_names()
+                if "EvalBreak" in names:
+                    return ("break", None)
+                if "EvalContinue" in names:
+                    return ("continue", None)
+                if "EvalReturn" in names:
+                    return ("return", r._fields.get("value"))
+            return ("normal", None)  # the value of an expression statement is not a completion
+        return self.outcome_completion(thunk)
+
+    def outcome_completion(self, thunk):
+        it = self.it
+        it.world = it.w0
+        try:
+            kind, v = thunk()
+            return (kind, it.obj(v), None, it.world)
+        except Raised as r:
+            return ("exc", it.exc_term(r.exc), it.exc_type_term(r.exc), it.world)
 
     def run_impl(self, node):
         it = self.it
@@ -131,11 +191,17 @@ class EvalHarness:
         ob = eng.oblige(f"{U}/same-outcome-kind", impl[0] == spec[0])
         obs.append(ob)
         if impl[0] == spec[0]:
-            if impl[0] == "ok":
-                if value:
-                    obs.append(eng.oblige(f"{U}/same-value", impl[1] == spec[1]))
-            else:
-                obs.append(eng.oblige(f"{U}/same-exception-type", impl[2] == spec[2]))
+            if impl[0] == "exc":
+                goal = impl[2] == spec[2]
+                # pyscript re-raising the same builtin class that the primitive raised counts as the same type
+                for a, b in ((impl, spec), (spec, impl)):
+                    nm = str(a[2])
+                    if nm.startswith("const:type:") and "type_of_exception" in str(b[2]):
+                        cls = nm[len("const:type:"):]
+                        goal = z3.Or(goal, z3.Function(f"exc_isinstance.{cls}", ObjS, z3.BoolSort())(b[1]))
+                obs.append(eng.oblige(f"{U}/same-exception-type", goal))
+            elif value:
+                obs.append(eng.oblige(f"{U}/same-value", impl[1] == spec[1]))
         obs.append(eng.oblige(f"{U}/same-effects-in-the-same-order", impl[3] == spec[3]))
         for ob in obs:
             if ob.status == "refuted" and witness is not None:
